@@ -445,3 +445,32 @@ def receive_paths_verbatim(ctx, repo, rule, only=("blocking", "awaitable"), skip
                    f"so bytes removed at either end shorten a segment - the block is assembled from short data and later bytes land at lower offsets, with the transfer reported as successful",
                    dr.loc, sample={"rule": rule, "stack": "awaitable", "probe": name, "bytes": len(data)})
     ctx.count(f"{rule}:receive-path probes", len(probes) * len(only))
+
+
+def traffic_log_carries_whole_datagrams(ctx, repo, rule):
+    """the raw traffic log is written by the socket's own debug lines: the datagram handed to the "Received ..." line is the
+    datagram that arrived, whole - the traffic-log reader reassembles a transfer from `STATV ... </DATAS>` on those lines,
+    so a line that shows only the first N bytes loses every segment longer than that.  dispatch of a 400-byte datagram
+    is interpreted with the logger observed."""
+    e = Engine(repo)
+    body = b"STATV\x00\x01\xc8" + bytes((i * 7 + 3) % 256 for i in range(200))
+    data = b"<PACKT><SRCCN>SPA01:02:03:04:05:06</SRCCN><DESCN>IOS01234567-89ab-cdef-0123-456789abcdef</DESCN><DATAS>" + body + b"</DATAS></PACKT>"
+    logged = []
+    e.interp.__dict__["log_hook"] = lambda level, args: logged.append((level, list(args)))
+    H = e.handler("H", can=True)
+    e.call("add_receive_handler", H)
+    dr = repo.method(SOCK, "dispatch_recevied_data")
+    try:
+        e.call("dispatch_recevied_data", data, ("10.0.0.9", 10022))
+    except PyRaise as ex:
+        logged.append(("raises", [ex.what]))
+    shown = [a for _lv, args in logged for a in args[1:] if isinstance(a, (bytes, bytearray))]
+    whole = [a for a in shown if bytes(a) == data]
+    cut = [len(a) for a in shown if bytes(a) != data and data.startswith(bytes(a))]
+    ctx.ob(rule, f"{dr.qual}::received-line-shows-the-whole-datagram", bool(whole) or not shown,
+           f"{dr.qual}: of a {len(data)}-byte datagram the log lines show {cut or [len(a) for a in shown]} bytes: the traffic-log reader finds no `</DATAS>` on a line that was cut, "
+           f"the segment vanishes from the log, and the transfer reassembles to other bytes than the client received", dr.loc,
+           sample={"rule": rule, "datagram_bytes": len(data), "logged_byte_args": [len(a) for a in shown]})
+    if not shown:
+        ctx.note(f"{dr.qual}: no log call with the datagram as an argument seen on the model - the traffic log's writer side is not this function")
+    ctx.count(f"{rule}:log calls observed while dispatching", len(logged))
